@@ -421,6 +421,9 @@ func (rl *Shell) selfInsert() {
 	rl.completer.TrimSuffix()
 
 	key := rl.Keys.Caller()
+	if len(key) == 0 {
+		return
+	}
 
 	// Handle autopair insertion (for the closer only)
 	searching, _, _ := rl.completer.NonIncrementallySearching()
